@@ -162,6 +162,12 @@ def gen_arrow_spec(rng, opt=False):
     spec['num_full_jacs'] = rng.choice([1, 2, 3])
     spec['root_ln'] = rng.choice(['runonce', 'runonce', 'runonce', 'lnbgs', 'lnbj', 'krylov', 'direct'])
     spec['ivc'] = rng.choice(['auto', 'one', 'per-var'])
+    # cache_linear_solution on some design variables / responses (initial guess of iterative solvers; the saved
+    # solution belongs to one direction - matters under bidirectional colorings)
+    spec['cache'] = []
+    if rng.random() < 0.25:
+        pool = [d['name'] for d in dvs] + [r['name'] for r in resps]
+        spec['cache'] = sorted(set(rng.choice(pool) for _ in range(rng.randint(1, 3))))
     real = [c['name'] for c in comps]
     spec['groups'] = None
     if len(real) >= 3 and rng.random() < 0.5:
@@ -204,6 +210,8 @@ def arrow_tags(spec):
         t.append('dv-idx')
     if any(r['idx'] for r in spec['resps']):
         t.append('resp-idx')
+    if spec.get('cache'):
+        t.append('cache-linear-solution')
     if spec['opt']:
         t.append('opt')
     return t
@@ -511,16 +519,21 @@ def build_arrow(spec, hook=None):
         where.get(c['name'], m).add_subsystem(c['name'], Elem(c, sizes, hook), promotes=['*'])
     m.linear_solver = _ln_solver(om, spec['root_ln'])
     bnd = dict(lower=-spec['xbnd'], upper=spec['xbnd']) if spec['opt'] else {}
+    cache = set(spec.get('cache', ()))
     for d in spec['dvs']:
         kw = dict(bnd)
+        if d['name'] in cache:
+            kw['cache_linear_solution'] = True
         if d['idx'] is not None:
             kw['indices'] = d['idx']
         m.add_design_var(d['name'], **kw)
     for r in spec['resps']:
-        if r['kind'] == 'obj':
-            m.add_objective(r['name'])
-            continue
         kw = {}
+        if r['name'] in cache:
+            kw['cache_linear_solution'] = True
+        if r['kind'] == 'obj':
+            m.add_objective(r['name'], **kw)
+            continue
         if r['idx'] is not None:
             kw['indices'] = r['idx']
         if spec['opt']:
